@@ -70,7 +70,7 @@ func ruleDeferObservedErr(r *Report, rule string, pkgs ...string) {
 								return true
 							}
 							// declared in this body, outside the closure
-							if v.Pos() >= bu.Body.Pos() && v.Pos() <= bu.Body.End() && !(v.Pos() >= lit.Pos() && v.Pos() <= lit.End()) {
+							if declaredWithin(info, bu.Body, v) && !declaredWithin(info, lit, v) {
 								observed[ds] = obj
 							}
 							return true
@@ -317,7 +317,10 @@ func ruleParallelSlotsUpdatedTogether(r *Report, rule, pkg, typeName, lead strin
 					if !ok || !isField(info, i2.X, typeName, fol) || exprStr(i2.Index) != idx {
 						return true
 					}
-					if a2.Pos() > as.Pos() && g.ReachesNode(as, a2) {
+					if os.Getenv("VERIF_DEBUG") != "" {
+						fmt.Fprintf(os.Stderr, "DEBUG cand lead=%s fol=%s posok=%v reach=%v\n", p.Pos(as.Pos()), p.Pos(a2.Pos()), a2.Pos() > as.Pos(), g.ReachesNode(as, a2))
+					}
+					if a2 != as && g.ReachesNode(as, a2) && (a2.Pos() > as.Pos() || g.ReachesFwdNode(as, a2)) {
 						// and nothing but error/nil early exits in between: the follower's guards = lead's guards + nil/err tests
 						extra := false
 						lf := factsString(g.GuardsOf(as))
@@ -430,6 +433,9 @@ func ruleCursorEncodingMirrorsSortMode(r *Report, rule string) {
 				continue
 			}
 			txt := exprStr(f.Expr)
+			if be, isB := ast.Unparen(f.Expr).(*ast.BinaryExpr); isB && f.Tag == nil && be.Op != token.EQL {
+				continue // only "is equal to the mode constant" establishes the mode
+			}
 			switch {
 			case strings.Contains(txt, "SortGeoDistance"):
 				mode = "distance"
@@ -1525,7 +1531,7 @@ func ruleScratchResetBeforeVisit(r *Report, rule string, pkgs ...string) {
 					}
 					for i, l := range as.Lhs {
 						o := objOf(info, l)
-						if o == nil || !(o.Pos() < D.Pos() || o.Pos() > D.End()) || o.Pos() < fi.Decl.Body.Pos() {
+						if o == nil || declaredWithin(info, D, o) || isSigVar(fi, o) {
 							continue
 						}
 						if i < len(as.Rhs) {
@@ -2246,7 +2252,7 @@ func rulePivotFixedDuringAlignment(r *Report, rule string) {
 		var clear *ast.AssignStmt
 		inspectNoLit(loop.Body, func(y ast.Node) bool {
 			if as, ok := y.(*ast.AssignStmt); ok && len(as.Lhs) == 1 && len(as.Rhs) == 1 && exprStr(as.Rhs[0]) == "false" {
-				if o := objOf(info, as.Lhs[0]); o != nil && isBoolType(o.Type()) && !(o.Pos() >= loop.Pos() && o.Pos() <= loop.End()) {
+				if o := objOf(info, as.Lhs[0]); o != nil && isBoolType(o.Type()) && !declaredWithin(info, loop, o) {
 					// innermost loop only
 					inner := true
 					for _, anc := range enclosing(loop.Body, as) {
@@ -2272,7 +2278,7 @@ func rulePivotFixedDuringAlignment(r *Report, rule string) {
 		for _, c := range callsIn(loop.Body) {
 			if f := callee(info, c); f != nil && f.Name() == "Compare" {
 				for _, a := range c.Args {
-					if o := objOf(info, a); o != nil && !(o.Pos() >= loop.Pos() && o.Pos() <= loop.End()) {
+					if o := objOf(info, a); o != nil && !declaredWithin(info, loop, o) {
 						pivots[o] = true
 					}
 				}
@@ -2357,7 +2363,7 @@ func ruleParallelSlicesResetTogether(r *Report, rule string, pkgs ...string) {
 							break
 						}
 						o := objOf(info, as.Lhs[i])
-						if o == nil || !(o.Pos() >= bu.Body.Pos() && o.Pos() <= bu.Body.End()) && bu.Lit == nil {
+						if o == nil || !declaredWithin(info, bu.Body, o) && bu.Lit == nil {
 							// only locals of this function (closures may use the enclosing function's locals)
 						}
 						if o == nil {
@@ -3074,8 +3080,8 @@ func ruleOptimisedDisjunctionKeepsMin(r *Report, rule string) {
 					if !g.ReachesFwdNode(as, rs) {
 						return true
 					}
-					rf := factsString(g.GuardsOf(rs))
-					for _, fct := range g.GuardsOf(as) {
+					rf := factsString(g.RawGuardsOf(rs))
+					for _, fct := range g.RawGuardsOf(as) { // universal: the conditions as written
 						if strings.Contains(rf, fct.String()) {
 							continue
 						}
@@ -4184,7 +4190,7 @@ func ruleLoopScratchBufferReset(r *Report, rule string, pkgs ...string) {
 					case *ast.RangeStmt:
 						body = l.Body
 					}
-					if body == nil || (b.Pos() >= body.Pos() && b.Pos() <= body.End()) {
+					if body == nil || declaredWithin(info, body, b) {
 						return true // declared inside this loop (or not a loop)
 					}
 					var reads, writes, resets []ast.Node
@@ -5974,4 +5980,41 @@ func ruleOptionalFieldEqualityKeepsAbsence(r *Report, rule string, pkgRel string
 	if n < 4 {
 		undecidedf("optional-field equality rule matched %d fields in %s", n, pkgRel)
 	}
+}
+
+
+// declaredWithin: the defining identifier of o is a node of the subtree (by
+// structure, not by source position: expanded helper bodies keep their own positions).
+func declaredWithin(info *types.Info, root ast.Node, o types.Object) bool {
+	found := false
+	ast.Inspect(root, func(n ast.Node) bool {
+		if id, ok := n.(*ast.Ident); ok && info.Defs[id] == o {
+			found = true
+		}
+		return !found
+	})
+	return found
+}
+
+
+// isSigVar: o is a receiver, parameter or named result of fi.
+func isSigVar(fi *FuncInfo, o types.Object) bool {
+	sig, ok := fi.Obj.Type().(*types.Signature)
+	if !ok || o == nil {
+		return false
+	}
+	if sig.Recv() != nil && types.Object(sig.Recv()) == o {
+		return true
+	}
+	for i := 0; i < sig.Params().Len(); i++ {
+		if types.Object(sig.Params().At(i)) == o {
+			return true
+		}
+	}
+	for i := 0; i < sig.Results().Len(); i++ {
+		if types.Object(sig.Results().At(i)) == o {
+			return true
+		}
+	}
+	return false
 }
